@@ -1,17 +1,17 @@
 (** * Histories of the whole model, C12 part 1 (dealer level).
 
-    Two facts about every dealer function, in the style of
-    [RealmTraceInv.dq]:
+    Facts about every dealer function, in the style of [RealmTraceInv.dq]:
     - [noev]: the dealer never sends an EVENT (only the broker does);
     - [regs_kept]: REGISTER excepted, a dealer function creates no
-      registration, never changes a registration's disclose flag or procedure,
-      and adds no callee.
-    REGISTER is characterised by [register_regs]: a registration after it is an
-    old one (same flag — ALSO when the registering session joins a shared
-    registration: its own [disclose_caller] is not recorded —, same procedure,
-    callees plus possibly the registering session), or the one it created
-    (flag = the [disclose_caller] option, admitted only when the realm allows
-    disclosure or the session's authrole is "trusted"). *)
+      registration and adds no session to a registration's [reg_disclose]
+      (the callees that asked for the caller's identity at their own REGISTER
+      and were allowed to);
+    - [disc_ok]: [reg_disclose] lists callees of the registration, each once.
+    REGISTER is characterised by [register_regs]: a session is in
+    [reg_disclose] after it only if it was before, or it is the registering
+    session, answered REGISTERED for this registration, with
+    [disclose_caller = true], admitted because the realm allows disclosure or
+    its authrole is "trusted". *)
 From Nexus Require Import Router.Realm Router.AssocLemmas Router.RealmLib Router.RealmProofs
      Router.RealmMetaProofs Router.RealmLeave.
 From Nexus Require Import Router.DealerLib Router.DealerProofs Router.DealerReg Router.DealerCall Router.DealerWf
@@ -37,33 +37,43 @@ Proof. intros. apply noev_cons; [assumption|apply noev_nil]. Qed.
 
 Definition regs_kept (d d' : dealer) : Prop :=
   forall rid rg', nget (d_regs d') rid = Some rg' ->
-    exists rg, nget (d_regs d) rid = Some rg /\ reg_disclose rg' = reg_disclose rg /\
-               reg_proc rg' = reg_proc rg /\ incl (reg_callees rg') (reg_callees rg).
+    exists rg, nget (d_regs d) rid = Some rg /\ incl (reg_disclose rg') (reg_disclose rg).
 
 Lemma rk_refl : forall d, regs_kept d d.
-Proof. intros d rid rg H. exists rg. split; [exact H|]. split; [reflexivity|]. split; [reflexivity|apply incl_refl]. Qed.
+Proof. intros d rid rg H. exists rg. split; [exact H|apply incl_refl]. Qed.
 Lemma rk_trans : forall a b c, regs_kept a b -> regs_kept b c -> regs_kept a c.
 Proof.
-  intros a b c A B rid rg2 H. destruct (B rid rg2 H) as (rg1 & H1 & D1 & P1 & I1).
-  destruct (A rid rg1 H1) as (rg0 & H0 & D0 & P0 & I0). exists rg0.
-  split; [exact H0|]. split; [congruence|]. split; [congruence|]. eapply incl_tran; eauto.
+  intros a b c A B rid rg2 H. destruct (B rid rg2 H) as (rg1 & H1 & I1).
+  destruct (A rid rg1 H1) as (rg0 & H0 & I0). exists rg0. split; [exact H0|]. eapply incl_tran; eauto.
 Qed.
 Lemma rk_same : forall d d', d_regs d' = d_regs d -> regs_kept d d'.
 Proof. intros d d' E rid rg H. rewrite E in H. apply (rk_refl d rid rg H). Qed.
 
+(** [reg_disclose] names callees of the registration, each once *)
+Definition disc_ok (d : dealer) : Prop :=
+  forall rid rg, nget (d_regs d) rid = Some rg ->
+    incl (reg_disclose rg) (reg_callees rg) /\ NoDup (reg_disclose rg).
+
+Lemma ok_same : forall d d', d_regs d' = d_regs d -> disc_ok d -> disc_ok d'.
+Proof. intros d d' E H rid rg Hr. rewrite E in Hr. exact (H rid rg Hr). Qed.
+
 Record dk (d : dealer) (o : list out) (d' : dealer) : Prop := {
   dk_noev : noev o;
-  dk_regs : regs_kept d d'
+  dk_regs : regs_kept d d';
+  dk_ok : disc_ok d -> disc_ok d'
 }.
 
 Lemma dk_refl : forall d, dk d [] d.
-Proof. intros d. constructor; [apply noev_nil|apply rk_refl]. Qed.
+Proof. intros d. constructor; [apply noev_nil|apply rk_refl|auto]. Qed.
+
+Lemma dk_of_same : forall d o d', noev o -> d_regs d' = d_regs d -> dk d o d'.
+Proof. intros d o d' A E. constructor; [exact A|apply rk_same; exact E|apply ok_same; exact E]. Qed.
 
 (** ** The dealer functions *)
 Lemma sync_cancel_dk : forall lk d caller req mode reason ea,
     dk d (snd (sync_cancel lk d caller req mode reason ea)) (fst (sync_cancel lk d caller req mode reason ea)).
 Proof.
-  intros lk d caller req mode reason ea. constructor.
+  intros lk d caller req mode reason ea. apply dk_of_same.
   - destruct (sync_cancel_cases lk d caller req mode reason ea) as [E|(ikey & inv & x & Hp & Hc)].
     + rewrite E. apply noev_nil.
     + rewrite (sync_cancel_live _ _ _ _ _ _ _ _ _ _ Hp Hc).
@@ -71,7 +81,7 @@ Proof.
       * now apply noev_one.
       * apply noev_app; [|now apply noev_one].
         destruct (negb (mode =? "skip")%string && callee_can_cancel lk inv); [now apply noev_one|apply noev_nil].
-  - apply rk_same. destruct (sync_cancel_regs_same lk d caller req mode reason ea) as (_ & _ & _ & E & _). exact E.
+  - destruct (sync_cancel_regs_same lk d caller req mode reason ea) as (_ & _ & _ & E & _). exact E.
 Qed.
 
 Lemma cancel_dk : forall lk d caller req opts,
@@ -79,7 +89,7 @@ Lemma cancel_dk : forall lk d caller req opts,
 Proof.
   intros. unfold cancel. destruct (_ || _ || _); [apply sync_cancel_dk|].
   destruct (String.eqb _ ""); [apply sync_cancel_dk|].
-  cbn [fst snd]. constructor; [now apply noev_one|apply rk_refl].
+  cbn [fst snd]. apply dk_of_same; [now apply noev_one|reflexivity].
 Qed.
 
 Lemma sync_error_dk : forall d callee req det err args kw,
@@ -87,7 +97,7 @@ Lemma sync_error_dk : forall d callee req det err args kw,
 Proof.
   intros d callee req det err args kw.
   destruct (sync_error_frame d callee req det err args kw) as (_ & _ & Er).
-  constructor; [|apply rk_same; exact Er].
+  apply dk_of_same; [|exact Er].
   destruct (cget (d_invs d) (callee, req)) as [inv|] eqn:Hi.
   - rewrite (sync_error_owner _ _ _ _ _ _ _ _ Hi). destruct (cget (d_calls d) (inv_call inv)); cbn [snd];
       [now apply noev_one|apply noev_nil].
@@ -107,7 +117,7 @@ Lemma sync_yield_dk : forall lk d callee req opts args kw,
 Proof.
   intros lk d callee req opts args kw.
   destruct (sync_yield_frame lk d callee req opts args kw) as (_ & _ & Er).
-  constructor; [|apply rk_same; exact Er].
+  apply dk_of_same; [|exact Er].
   destruct (cget (d_invs d) (callee, req)) as [inv|] eqn:Hi.
   - rewrite (sync_yield_owner _ _ _ _ _ _ _ _ Hi). cbn [snd].
     destruct (cget (d_calls d) (inv_call inv)); [apply yield_out_noev|apply noev_nil].
@@ -117,18 +127,18 @@ Qed.
 
 Lemma fire_timers_dk : forall lk now d, dk d (snd (fire_timers lk now d)) (fst (fire_timers lk now d)).
 Proof.
-  intros lk now d. constructor.
+  intros lk now d. apply dk_of_same.
   - rewrite fire_timers_fold.
     generalize (sort_timers (filter (fun '((_, (dl, _)) : N * (N * callid)) => dl <=? now) (d_timers d))). intros l.
     assert (G : forall l d0 o, noev o -> noev (snd (fold_left (fire_step lk) l (d0, o)))).
     { clear. induction l as [|[tid [dl cid]] l IH]; intros d0 o A; cbn [fold_left]; [exact A|].
       unfold fire_step at 2. destruct (amem N.eqb (d_timers d0) tid); [|apply IH; exact A].
       pose proof (sync_cancel_dk lk (d_set_timers d0 (ndel (d_timers d0) tid) (d_timergen d0)) (fst cid) (snd cid)
-                                 "killnowait" e_timeout [vstr "call timeout"]) as [S1 _].
+                                 "killnowait" e_timeout [vstr "call timeout"]) as [S1 _ _].
       destruct (sync_cancel _ _ _ _ _ _ _) as [d2 o2]. cbn [fst snd] in *.
       apply IH. now apply noev_app. }
     apply G. apply noev_nil.
-  - apply rk_same. destruct (fire_timers_frame lk now d) as (_ & _ & E & _). exact E.
+  - destruct (fire_timers_frame lk now d) as (_ & _ & E & _). exact E.
 Qed.
 
 Lemma register_noev : forall cfg d callee req opts proc, noev (snd (fst (register cfg d callee req opts proc))).
@@ -148,54 +158,103 @@ Proof.
     repeat (destruct H as [<-|H]; [reflexivity|]); destruct H.
 Qed.
 
-Definition reg_admitted (cfg : config) (callee : session) (opts : dict) (proc : string) : Prop :=
-  (str_prefix_wamp proc && negb (N.eqb (s_id callee) meta_id)) = false /\
-  (negb (c_disclose cfg) && opt_bool opts "disclose_caller" &&
-   negb (String.eqb (attr_of (s_details callee) "authrole") "trusted")) = false.
+(** the registering session asked for the caller's identity and was allowed to *)
+Definition reg_asked (cfg : config) (callee : session) (opts : dict) : Prop :=
+  opt_bool opts "disclose_caller" = true /\
+  (c_disclose cfg = true \/ attr_of (s_details callee) "authrole" = "trusted").
 
-Lemma register_regs : forall cfg d callee req opts proc rid rg',
+Lemma admitted_asked : forall cfg callee opts,
+    (negb (c_disclose cfg) && opt_bool opts "disclose_caller" &&
+     negb (String.eqb (attr_of (s_details callee) "authrole") "trusted")) = false ->
+    opt_bool opts "disclose_caller" = true -> reg_asked cfg callee opts.
+Proof.
+  intros cfg callee opts A Hd. split; [exact Hd|]. rewrite Hd in A.
+  destruct (c_disclose cfg); [now left|right]. cbn [negb andb] in A.
+  apply negb_false_iff in A. now apply String.eqb_eq.
+Qed.
+
+Lemma register_regs : forall cfg d callee req opts proc rid rg' y,
     regs_core d ->
     nget (d_regs (fst (fst (register cfg d callee req opts proc)))) rid = Some rg' ->
-    (exists rg, nget (d_regs d) rid = Some rg /\ reg_disclose rg' = reg_disclose rg /\ reg_proc rg' = reg_proc rg /\
-                forall y, In y (reg_callees rg') ->
-                          In y (reg_callees rg) \/ (y = s_id callee /\ reg_proc rg = proc /\ reg_admitted cfg callee opts proc)) \/
-    (In (s_id callee, RRegistered req rid) (snd (fst (register cfg d callee req opts proc))) /\
-     reg_disclose rg' = opt_bool opts "disclose_caller" /\ reg_proc rg' = proc /\ reg_callees rg' = [s_id callee] /\
-     reg_admitted cfg callee opts proc).
+    In y (reg_disclose rg') ->
+    (exists rg, nget (d_regs d) rid = Some rg /\ In y (reg_disclose rg)) \/
+    (y = s_id callee /\ In (s_id callee, RRegistered req rid) (snd (fst (register cfg d callee req opts proc))) /\
+     reg_asked cfg callee opts).
 Proof.
-  intros cfg d callee req opts proc rid rg' RC. unfold reg_admitted.
-  assert (Keep : forall A : Prop, nget (d_regs d) rid = Some rg' ->
-            (exists rg, nget (d_regs d) rid = Some rg /\ reg_disclose rg' = reg_disclose rg /\ reg_proc rg' = reg_proc rg /\
-                forall y, In y (reg_callees rg') ->
-                          In y (reg_callees rg) \/ (y = s_id callee /\ reg_proc rg = proc /\
-                            ((str_prefix_wamp proc && negb (N.eqb (s_id callee) meta_id)) = false /\
-                             (negb (c_disclose cfg) && opt_bool opts "disclose_caller" &&
-                              negb (String.eqb (attr_of (s_details callee) "authrole") "trusted")) = false))) \/ A).
-  { intros A H. left. exists rg'. split; [exact H|]. split; [reflexivity|]. split; [reflexivity|]. intros y Hy. now left. }
-  unfold register.
+  intros cfg d callee req opts proc rid rg' y RC. unfold register.
+  assert (Keep : forall A : Prop, nget (d_regs d) rid = Some rg' -> In y (reg_disclose rg') ->
+                 (exists rg, nget (d_regs d) rid = Some rg /\ In y (reg_disclose rg)) \/ A)
+    by (intros A H Hy; left; exists rg'; auto).
   destruct (negb (valid_uri _ _ _)); [cbn [fst]; apply Keep|].
-  destruct (str_prefix_wamp proc && negb (s_id callee =? meta_id)) eqn:Hw; [cbn [fst]; apply Keep|].
+  destruct (str_prefix_wamp proc && negb (s_id callee =? meta_id)); [cbn [fst]; apply Keep|].
   destruct (negb (c_disclose cfg) && opt_bool opts "disclose_caller" &&
             negb (String.eqb (attr_of (s_details callee) "authrole") "trusted")) eqn:Hd; [cbn [fst]; apply Keep|].
+  pose proof (admitted_asked cfg callee opts Hd) as AA. clear Hd.
   destruct (match sget _ _ with Some id => nget (d_regs d) id | None => None end) as [rg|] eqn:M.
   - destruct (negb (shared_policy _) || _ || _); [cbn [fst]; apply Keep|].
     cbn [fst snd d_regs d_set_regs d_set_callee_regs]. rewrite ngs.
     destruct (N.eqb_spec rid (reg_id rg)) as [->|Hn]; [|apply Keep].
-    intros E. inversion E; subst rg'. clear E. cbn [reg_callees reg_disclose reg_proc]. left.
+    intros E. inversion E; subst rg'. clear E. cbn [reg_disclose].
     destruct (sget _ _) as [id|] eqn:Sg; [|discriminate].
-    destruct (rw_map _ RC _ _ _ Sg) as (r0 & Hr0 & Hp0 & _).
-    assert (r0 = rg) by congruence. subst r0.
     destruct (rw_reg _ RC id rg M) as (Eid & _). rewrite Eid.
-    exists rg. split; [exact M|]. split; [reflexivity|]. split; [reflexivity|].
-    intros y Hin. apply in_app_or in Hin. destruct Hin as [Hin|[<-|[]]]; [now left|right]. auto.
+    destruct (opt_bool opts "disclose_caller") eqn:Hdc.
+    + intros Hy. apply in_app_or in Hy. destruct Hy as [Hy|[<-|[]]].
+      * left. exists rg. split; [exact M|exact Hy].
+      * right. split; [reflexivity|]. split; [now left|]. apply AA; reflexivity.
+    + intros Hy. left. exists rg. split; [exact M|exact Hy].
   - cbn [fst snd]. intros E.
     assert (E' : nget (nset (d_regs d) (idgen_next (d_idgen d))
                             (mkReg (idgen_next (d_idgen d)) proc (opt_string opts "match") (opt_string opts "invoke")
-                                   (opt_bool opts "disclose_caller") (opt_bool opts "forward_timeout") 0 [s_id callee])) rid = Some rg').
+                                   (if opt_bool opts "disclose_caller" then [s_id callee] else [])
+                                   (opt_bool opts "forward_timeout") 0 [s_id callee])) rid = Some rg').
     { destruct (mkind_of (opt_string opts "match")); exact E. }
     rewrite ngs in E'. destruct (N.eqb_spec rid (idgen_next (d_idgen d))) as [->|Hn]; [|apply Keep; exact E'].
-    inversion E'; subst rg'. right. cbn [reg_disclose reg_proc reg_callees].
-    split; [now left|]. auto.
+    inversion E'; subst rg'. cbn [reg_disclose].
+    destruct (opt_bool opts "disclose_caller") eqn:Hdc; [|intros []].
+    intros [<-|[]]. right. split; [reflexivity|]. split; [now left|]. apply AA; reflexivity.
+Qed.
+
+Lemma NoDup_app_one : forall {A} (l : list A) x, NoDup l -> ~ In x l -> NoDup (l ++ [x]).
+Proof.
+  induction l as [|a l IH]; intros x H Hn; cbn [app]; [constructor; [intros []|constructor]|].
+  inversion H; subst. constructor.
+  - intros Hin. apply in_app_or in Hin. destruct Hin as [Hin|[E|[]]]; [contradiction|]. subst. apply Hn. now left.
+  - apply IH; [assumption|]. intros Hin. apply Hn. now right.
+Qed.
+
+Lemma register_ok : forall cfg d callee req opts proc,
+    regs_core d -> disc_ok d -> disc_ok (fst (fst (register cfg d callee req opts proc))).
+Proof.
+  intros cfg d callee req opts proc RC OK. unfold register.
+  destruct (negb (valid_uri _ _ _)); [exact OK|].
+  destruct (str_prefix_wamp proc && negb (s_id callee =? meta_id)); [exact OK|].
+  destruct (negb (c_disclose cfg) && _ && _); [exact OK|].
+  destruct (match sget _ _ with Some id => nget (d_regs d) id | None => None end) as [rg|] eqn:M.
+  - destruct (negb (shared_policy _) || _ || nmem (s_id callee) (reg_callees rg)) eqn:Hc; [exact OK|].
+    apply orb_false_iff in Hc. destruct Hc as [_ Hc].
+    assert (Hnc : ~ In (s_id callee) (reg_callees rg)).
+    { intros Hin. unfold nmem in Hc. assert (X : existsb (N.eqb (s_id callee)) (reg_callees rg) = true)
+        by (apply existsb_exists; exists (s_id callee); split; [exact Hin|apply N.eqb_refl]). congruence. }
+    destruct (sget _ _) as [id|] eqn:Sg; [|discriminate].
+    destruct (OK id rg M) as [I1 I2].
+    cbn [fst]. intros rid rg' H. cbn [d_regs d_set_regs d_set_callee_regs] in H. rewrite ngs in H.
+    destruct (N.eqb_spec rid (reg_id rg)) as [->|Hn]; [|exact (OK rid rg' H)].
+    inversion H; subst rg'. cbn [reg_disclose reg_callees].
+    destruct (opt_bool opts "disclose_caller").
+    + split.
+      * intros y Hy. apply in_app_or in Hy. apply in_or_app. destruct Hy as [Hy|Hy]; [left; now apply I1|now right].
+      * apply NoDup_app_one; [exact I2|]. intros Hin. apply Hnc. now apply I1.
+    + split; [intros y Hy; apply in_or_app; left; now apply I1|exact I2].
+  - cbn [fst]. intros rid rg' H.
+    assert (H' : nget (nset (d_regs d) (idgen_next (d_idgen d))
+                            (mkReg (idgen_next (d_idgen d)) proc (opt_string opts "match") (opt_string opts "invoke")
+                                   (if opt_bool opts "disclose_caller" then [s_id callee] else [])
+                                   (opt_bool opts "forward_timeout") 0 [s_id callee])) rid = Some rg').
+    { destruct (mkind_of (opt_string opts "match")); exact H. }
+    rewrite ngs in H'. destruct (N.eqb_spec rid (idgen_next (d_idgen d))) as [->|Hn]; [|exact (OK rid rg' H')].
+    inversion H'; subst rg'. cbn [reg_disclose reg_callees].
+    destruct (opt_bool opts "disclose_caller"); split;
+      [apply incl_refl|repeat constructor; intros []|intros y []|constructor].
 Qed.
 
 Lemma del_callee_reg_rk : forall d sid id, regs_kept d (fst (del_callee_reg d sid id)).
@@ -209,9 +268,26 @@ Proof.
     rewrite ngd in H'. destruct (N.eqb rid id); [discriminate|]. apply (rk_refl d rid rg' H').
   - intros rid rg' H. cbn [d_regs d_set_regs] in H. rewrite ngs in H.
     destruct (N.eqb_spec rid id) as [->|Hn]; [|apply (rk_refl d rid rg' H)].
-    inversion H; subst rg'. cbn [reg_callees reg_disclose reg_proc]. exists rg.
-    split; [exact Hr|]. split; [reflexivity|]. split; [reflexivity|].
-    intros y Hin. rewrite <- Hc in Hin. eapply In_nremove1; eauto.
+    inversion H; subst rg'. cbn [reg_disclose]. exists rg. split; [exact Hr|].
+    intros y Hin. eapply In_nremove1; eauto.
+Qed.
+
+Lemma del_callee_reg_ok : forall d sid id, disc_ok d -> disc_ok (fst (del_callee_reg d sid id)).
+Proof.
+  intros d sid id OK. unfold del_callee_reg.
+  destruct (nget (d_regs d) id) as [rg|] eqn:Hr; [|exact OK].
+  destruct (negb (nmem sid (reg_callees rg))); [exact OK|].
+  destruct (OK id rg Hr) as [I1 I2].
+  destruct (nremove1 sid (reg_callees rg)) as [|c cs] eqn:Hc; cbn [fst].
+  - intros rid rg' H.
+    assert (H' : nget (ndel (d_regs d) id) rid = Some rg') by (destruct (mkind_of (reg_match rg)); exact H).
+    rewrite ngd in H'. destruct (N.eqb rid id); [discriminate|]. exact (OK rid rg' H').
+  - intros rid rg' H. cbn [d_regs d_set_regs] in H. rewrite ngs in H.
+    destruct (N.eqb_spec rid id) as [->|Hn]; [|exact (OK rid rg' H)].
+    inversion H; subst rg'. cbn [reg_disclose reg_callees]. rewrite <- Hc. split.
+    + intros y Hy. apply (In_nremove1_NoDup sid y _ I2) in Hy. destruct Hy as [Hy Hne].
+      apply In_nremove1_other; [exact Hne|now apply I1].
+    + now apply NoDup_nremove1.
 Qed.
 
 Lemma unregister_dk : forall d sid req regid,
@@ -224,6 +300,9 @@ Proof.
   - unfold unregister.
     pose proof (del_callee_reg_rk (d_set_callee_regs d (callee_del_reg (d_callee_regs d) sid regid)) sid regid) as E.
     destruct (del_callee_reg _ sid regid) as [d1 [b|]]; cbn [fst] in *; [exact E|apply rk_same; reflexivity].
+  - intros OK. unfold unregister.
+    pose proof (del_callee_reg_ok (d_set_callee_regs d (callee_del_reg (d_callee_regs d) sid regid)) sid regid OK) as E.
+    destruct (del_callee_reg _ sid regid) as [d1 [b|]]; cbn [fst] in *; [exact E|exact OK].
 Qed.
 
 Lemma unregister_mps_plain : forall d sid req regid mp,
@@ -237,32 +316,36 @@ Qed.
 Lemma remove_callee_reg_fold_c12 : forall sid regs d mp,
     (forall x, In x mp -> mp_opts x = []) ->
     regs_kept d (fst (fold_left (remove_callee_reg sid) regs (d, mp))) /\
+    (disc_ok d -> disc_ok (fst (fold_left (remove_callee_reg sid) regs (d, mp)))) /\
     (forall x, In x (snd (fold_left (remove_callee_reg sid) regs (d, mp))) -> mp_opts x = []).
 Proof.
-  intros sid. induction regs as [|id regs IH]; intros d mp P; cbn [fold_left]; [split; [apply rk_refl|exact P]|].
-  unfold remove_callee_reg at 2 4.
-  pose proof (del_callee_reg_rk d sid id) as L.
+  intros sid. induction regs as [|id regs IH]; intros d mp P; cbn [fold_left];
+    [split; [apply rk_refl|split; [auto|exact P]]|].
+  unfold remove_callee_reg at 2 4 6.
+  pose proof (del_callee_reg_rk d sid id) as L. pose proof (del_callee_reg_ok d sid id) as K.
   destruct (del_callee_reg d sid id) as [d1 [b|]]; cbn [fst] in *.
   - destruct (IH d1 (mp ++ mkMetaPub t_reg_on_unregister [vid sid; vid id] [] [] ::
-                        (if b then [mkMetaPub t_reg_on_delete [vid sid; vid id] [] []] else []))) as [A B].
+                        (if b then [mkMetaPub t_reg_on_delete [vid sid; vid id] [] []] else []))) as (A & B & C).
     { intros x Hx. apply in_app_or in Hx. destruct Hx as [Hx|[<-|Hx]]; [auto|reflexivity|].
       destruct b; [destruct Hx as [<-|[]]; reflexivity|destruct Hx]. }
-    split; [eapply rk_trans; eauto|exact B].
+    split; [eapply rk_trans; eauto|]. split; [auto|exact C].
   - apply IH. exact P.
 Qed.
 
 Lemma cancel_served_dk : forall lk sid d o e, noev o ->
-    noev (snd (cancel_served lk sid (d, o) e)) /\ regs_kept d (fst (cancel_served lk sid (d, o) e)).
+    noev (snd (cancel_served lk sid (d, o) e)) /\ d_regs (fst (cancel_served lk sid (d, o) e)) = d_regs d.
 Proof.
   intros lk sid d o [ikey e] A. unfold cancel_served.
-  assert (Same : noev o /\ regs_kept d d) by (split; [exact A|apply rk_refl]).
+  assert (Same : noev o /\ d_regs d = d_regs d) by (split; [exact A|reflexivity]).
   destruct (cget (d_invs d) ikey) as [inv|] eqn:Hi; [|exact Same].
   destruct (negb (inv_callee inv =? sid)); [exact Same|].
   destruct (cget (d_calls d) (inv_call inv)) as [caller|]; [|exact Same].
   match goal with |- context [sync_cancel lk ?D ?a ?b ?c ?dd ?e0] =>
-    pose proof (sync_cancel_dk lk D a b c dd e0) as [S1 S2]; destruct (sync_cancel lk D a b c dd e0) as [d3 o3] end.
+    pose proof (sync_cancel_dk lk D a b c dd e0) as [S1 _ _];
+    destruct (sync_cancel_regs_same lk D a b c dd e0) as (_ & _ & _ & S2 & _);
+    destruct (sync_cancel lk D a b c dd e0) as [d3 o3] end.
   cbn [fst snd] in *. split; [now apply noev_app|].
-  eapply rk_trans; [|exact S2]. apply rk_same. cbn [d_regs d_set_invs]. apply ct_regs.
+  rewrite S2. cbn [d_regs d_set_invs]. apply ct_regs.
 Qed.
 
 Lemma dealer_remove_session_dk : forall lk d sid,
@@ -271,43 +354,48 @@ Lemma dealer_remove_session_dk : forall lk d sid,
 Proof.
   intros lk d sid. unfold dealer_remove_session.
   destruct (remove_callee_reg_fold_c12 sid (match nget (d_callee_regs d) sid with Some l => l | None => [] end) d [])
-    as [L1 P1]; [intros x []|].
+    as (L1 & K1 & P1); [intros x []|].
   destruct (fold_left (remove_callee_reg sid) _ (d, [])) as [d1 mp]. cbn [fst snd] in *.
   set (d2 := d_set_callee_regs d1 (ndel (d_callee_regs d1) sid)).
   assert (G : forall l d0 o, noev o ->
                 noev (snd (fold_left (cancel_served lk sid) l (d0, o))) /\
-                regs_kept d0 (fst (fold_left (cancel_served lk sid) l (d0, o)))).
+                d_regs (fst (fold_left (cancel_served lk sid) l (d0, o))) = d_regs d0).
   { clear. induction l as [|e l IH]; intros d0 o A; cbn [fold_left].
-    - cbn [fst snd]. split; [exact A|apply rk_refl].
+    - cbn [fst snd]. split; [exact A|reflexivity].
     - destruct (cancel_served_dk lk sid d0 o e A) as (B1 & B2).
       destruct (cancel_served lk sid (d0, o) e) as [d3 o3]. cbn [fst snd] in *.
-      destruct (IH d3 o3 B1) as (C1 & C2). split; [exact C1|eapply rk_trans; eauto]. }
+      destruct (IH d3 o3 B1) as (C1 & C2). split; [exact C1|congruence]. }
   destruct (G (d_invs d2) d2 [] noev_nil) as (A & C).
   destruct (fold_left (cancel_served lk sid) (d_invs d2) (d2, [])) as [d3 o]. cbn [fst snd] in *.
   assert (H : forall l d0, d_regs (fold_left (drop_own_call sid) l d0) = d_regs d0).
   { clear. induction l as [|e l IH]; intros d0; cbn [fold_left]; [reflexivity|].
     rewrite IH. apply drop_own_call_regs. }
-  split; [|exact P1]. constructor; cbn [fst snd]; [exact A|].
-  eapply rk_trans; [|apply rk_same; apply H]. eapply rk_trans; [|exact C].
-  eapply rk_trans; [exact L1|]. apply rk_same. reflexivity.
+  assert (E : d_regs (fold_left (drop_own_call sid) (d_calls d3) d3) = d_regs d1).
+  { rewrite H, C. reflexivity. }
+  split; [|exact P1]. constructor; cbn [fst snd]; [exact A| |].
+  - eapply rk_trans; [exact L1|apply rk_same; exact E].
+  - intros OK. eapply ok_same; [exact E|auto].
 Qed.
 
 (** ** CALL *)
-Lemma call_d0_rk : forall d r next, nget (d_regs d) (reg_id r) = Some r -> regs_kept d (call_d0 d r next).
+Lemma call_d0_dk : forall d r next o, noev o -> nget (d_regs d) (reg_id r) = Some r -> dk d o (call_d0 d r next).
 Proof.
-  intros d r next Hr rid rg' H. unfold call_d0 in H. cbn [d_regs d_set_regs] in H. rewrite ngs in H.
-  destruct (N.eqb_spec rid (reg_id r)) as [->|Hn]; [|apply (rk_refl d rid rg' H)].
-  inversion H; subst rg'. exists r. split; [exact Hr|]. unfold reg_set_next. cbn [reg_disclose reg_proc reg_callees].
-  split; [reflexivity|]. split; [reflexivity|apply incl_refl].
+  intros d r next o A Hr. constructor; [exact A| |].
+  - intros rid rg' H. unfold call_d0 in H. cbn [d_regs d_set_regs] in H. rewrite ngs in H.
+    destruct (N.eqb_spec rid (reg_id r)) as [->|Hn]; [|apply (rk_refl d rid rg' H)].
+    inversion H; subst rg'. exists r. split; [exact Hr|]. unfold reg_set_next. cbn [reg_disclose]. apply incl_refl.
+  - intros OK rid rg' H. unfold call_d0 in H. cbn [d_regs d_set_regs] in H. rewrite ngs in H.
+    destruct (N.eqb_spec rid (reg_id r)) as [->|Hn]; [|exact (OK rid rg' H)].
+    inversion H; subst rg'. unfold reg_set_next. cbn [reg_disclose reg_callees]. exact (OK _ _ Hr).
 Qed.
 
 Lemma call_c12 : forall cfg lk now d caller req opts proc args kw oracle,
     dealer_wf lk d -> lookup_ok lk ->
     match call cfg lk now d caller req opts proc args kw oracle with
-    | CallRefused d' o => noev o /\ noinv o /\ regs_kept d d'
+    | CallRefused d' o => dk d o d' /\ noinv o
     | CallAbort o => noev o /\ noinv o
     | CallInvoked d' callee' o =>
-        noev o /\ regs_kept d d' /\
+        dk d o d' /\
         (exists b rid det, o = [(s_id callee', RInvocation b rid det args kw)]) /\
         exists callee0, lk (s_id callee') = Some callee0 /\
                         (callee' = callee0 \/ exists n, callee' = set_invgen callee0 n)
@@ -316,15 +404,15 @@ Proof.
   intros cfg lk now d caller req opts proc args kw oracle WF LOK.
   assert (Hreg : forall r, match_procedure d proc oracle = Some r -> nget (d_regs d) (reg_id r) = Some r).
   { intros r Hm. apply (best_match_sound lk d WF) in Hm. destruct Hm as [Hr _]. exact Hr. }
-  assert (Hnps : noev [no_proc_msg (s_id caller) req] /\ noinv [no_proc_msg (s_id caller) req] /\
-                 regs_kept d (no_proc_state d (s_id caller, req))).
-  { split; [now apply noev_one|]. split; [now apply noinv_one|]. apply rk_same.
+  assert (Hnps : dk d [no_proc_msg (s_id caller) req] (no_proc_state d (s_id caller, req)) /\
+                 noinv [no_proc_msg (s_id caller) req]).
+  { split; [|now apply noinv_one]. apply dk_of_same; [now apply noev_one|].
     destruct (nps_frame d (s_id caller, req)) as (_ & _ & E & _). exact E. }
-  assert (Hsame : forall m, is_ev m = false -> is_inv m = false -> noev [m] /\ noinv [m] /\ regs_kept d d).
-  { intros m A B. split; [now apply noev_one|]. split; [now apply noinv_one|apply rk_refl]. }
+  assert (Hsame : forall m, is_ev m = false -> is_inv m = false -> dk d [m] d /\ noinv [m]).
+  { intros m A B. split; [apply dk_of_same; [now apply noev_one|reflexivity]|now apply noinv_one]. }
   assert (Hd0 : forall r next m, match_procedure d proc oracle = Some r -> is_ev m = false -> is_inv m = false ->
-                                 noev [m] /\ noinv [m] /\ regs_kept d (call_d0 d r next)).
-  { intros r next m Hm A B. split; [now apply noev_one|]. split; [now apply noinv_one|apply call_d0_rk; auto]. }
+                                 dk d [m] (call_d0 d r next) /\ noinv [m]).
+  { intros r next m Hm A B. split; [apply call_d0_dk; [now apply noev_one|auto]|now apply noinv_one]. }
   pose proof (call_cases cfg lk now d caller req opts proc args kw oracle) as C.
   inversion C as [Hm E|r Hm Hc E|r Hm Hc Ha E|r ikey Hm Hc Ha Hb Hi E|r ikey inv Hm Hc Ha Hb Hi Hl E
                   |r ikey inv callee Hm Hc Ha Hb Hi Hl E|r Hm Hc Ha Hb Hs E|r cid0 next Hm Hc Ha Hb Hs Hl E
@@ -335,10 +423,10 @@ Proof.
   - exact Hnps.
   - exact Hnps.
   - split; [now apply noev_one|now apply noinv_one].
-  - split; [apply noev_nil|]. split; [apply noinv_nil|apply rk_refl].
-  - split; [apply noev_nil|]. split; [apply noinv_nil|apply rk_refl].
+  - split; [apply dk_refl|apply noinv_nil].
+  - split; [apply dk_refl|apply noinv_nil].
   - (* chunk *)
-    split; [now apply noev_one|]. split; [apply rk_same; apply chs_regs|].
+    split; [apply dk_of_same; [now apply noev_one|apply chs_regs]|].
     split; [do 3 eexists; reflexivity|].
     exists callee. split; [|now left]. rewrite (LOK _ _ Hl). exact Hl.
   - apply Hsame; reflexivity.
@@ -348,9 +436,13 @@ Proof.
   - eapply Hd0; eauto.
   - eapply Hd0; eauto.
   - (* first *)
-    split; [now apply noev_one|]. split.
-    + intros rid rg' H. rewrite cfs_regs in H. apply (call_d0_rk d r next (Hreg r Hm) rid rg').
-      unfold call_d0. cbn [d_regs d_set_regs]. exact H.
+    split.
+    + pose proof (call_d0_dk d r next [] noev_nil (Hreg r Hm)) as [_ B K].
+      assert (Er : d_regs (call_first_state now d (s_id caller, req) opts r cid0 next callee) = d_regs (call_d0 d r next))
+        by (rewrite cfs_regs; reflexivity).
+      constructor; [now apply noev_one| |].
+      * intros rid rg' H. rewrite Er in H. exact (B rid rg' H).
+      * intros OK. eapply ok_same; [exact Er|auto].
     + split; [cbn [set_invgen s_id]; rewrite (LOK _ _ Hl); do 3 eexists; reflexivity|].
       exists callee. cbn [set_invgen s_id]. split; [rewrite (LOK _ _ Hl); exact Hl|].
       right. eexists. reflexivity.
